@@ -1,10 +1,13 @@
 package props
 
 import (
+	"bufio"
 	"bytes"
 	"encoding/binary"
 	"encoding/json"
 	"fmt"
+	"io"
+	"os"
 	"reflect"
 
 	"github.com/tormoder/fit"
@@ -385,9 +388,140 @@ func runC05(w *vx.W) {
 			}
 		}
 	}
+	c05WriterKindsFamily(w, &k)
 	if w.Shard == 0 {
 		g := genSpecs(genSlots()[5], false)[3]
 		out, _, _ := c05Check(g)
 		w.Sample(map[string]interface{}{"spec": g.json(), "encoded_hex": vx.Hex(out)})
 	}
+}
+
+// ---- writer kinds: the bytes handed to whatever io.Writer the caller passes — a plain writer that copies each
+// chunk, *bytes.Buffer, *bufio.Writer (tiny and large buffer), *os.File, io.Pipe, io.MultiWriter, a writer with
+// extra optional interfaces (io.StringWriter, io.ReaderFrom, io.ByteWriter) — must be the same well-formed stream
+// (the *bytes.Buffer output is the one validated by the grammar parser above).
+
+type plainWriter struct {
+	chunks [][]byte
+}
+
+func (p *plainWriter) Write(b []byte) (int, error) {
+	p.chunks = append(p.chunks, append([]byte{}, b...))
+	return len(b), nil
+}
+func (p *plainWriter) bytes() []byte { return fitmodel.Concat(p.chunks...) }
+
+// richWriter also offers the optional interfaces a fast path might look for.
+type richWriter struct{ buf bytes.Buffer }
+
+func (r *richWriter) Write(b []byte) (int, error)       { return r.buf.Write(b) }
+func (r *richWriter) WriteString(s string) (int, error) { return r.buf.WriteString(s) }
+func (r *richWriter) WriteByte(c byte) error            { return r.buf.WriteByte(c) }
+func (r *richWriter) ReadFrom(src io.Reader) (int64, error) {
+	return r.buf.ReadFrom(src)
+}
+
+var c05WriterKinds = []string{"plain", "bufio.Writer(16)", "bufio.Writer(65536)", "os.File", "io.Pipe", "io.MultiWriter", "optional-interfaces"}
+
+func c05EncodeTo(kind string, f *fit.File, order binary.ByteOrder) ([]byte, error, string) {
+	var out []byte
+	var err error
+	var pn string
+	switch kind {
+	case "plain":
+		pw := &plainWriter{}
+		pn, _ = guard(func() { err = fit.Encode(pw, f, order) })
+		out = pw.bytes()
+	case "bufio.Writer(16)", "bufio.Writer(65536)":
+		var bb bytes.Buffer
+		size := 16
+		if kind != "bufio.Writer(16)" {
+			size = 65536
+		}
+		bw := bufio.NewWriterSize(&bb, size)
+		pn, _ = guard(func() { err = fit.Encode(bw, f, order) })
+		bw.Flush()
+		out = bb.Bytes()
+	case "os.File":
+		tf, terr := os.CreateTemp(os.Getenv("VX_SCRATCH"), "c05-*.fit")
+		if terr != nil {
+			return nil, terr, "skip"
+		}
+		defer os.Remove(tf.Name())
+		pn, _ = guard(func() { err = fit.Encode(tf, f, order) })
+		tf.Close()
+		out, _ = os.ReadFile(tf.Name())
+	case "io.Pipe":
+		pr, pw := io.Pipe()
+		done := make(chan []byte)
+		go func() { b, _ := io.ReadAll(pr); done <- b }()
+		pn, _ = guard(func() { err = fit.Encode(pw, f, order) })
+		pw.Close()
+		out = <-done
+	case "io.MultiWriter":
+		var a, b bytes.Buffer
+		pn, _ = guard(func() { err = fit.Encode(io.MultiWriter(&a, &b), f, order) })
+		out = a.Bytes()
+		if !bytes.Equal(a.Bytes(), b.Bytes()) {
+			return out, err, "the two sinks of an io.MultiWriter received different bytes"
+		}
+	case "optional-interfaces":
+		rw := &richWriter{}
+		pn, _ = guard(func() { err = fit.Encode(rw, f, order) })
+		out = rw.buf.Bytes()
+	}
+	return out, err, pn
+}
+
+func c05WriterKindsFamily(w *vx.W, k *int64) {
+	for _, t := range fileTypes {
+		for variant := 0; variant < 4; variant++ {
+			for c := 0; c < 4; c++ {
+				for _, kind := range c05WriterKinds {
+					*k++
+					if !w.Mine(*k) {
+						continue
+					}
+					var order binary.ByteOrder = binary.LittleEndian
+					if c&2 != 0 {
+						order = binary.BigEndian
+					}
+					f1, _ := multiFile(byte(t.Type), variant, c&1 == 0)
+					f2, _ := multiFile(byte(t.Type), variant, c&1 == 0)
+					if f1 == nil {
+						continue
+					}
+					var ref bytes.Buffer
+					var rerr error
+					guard(func() { rerr = fit.Encode(&ref, f1, order) })
+					out, err, pn := c05EncodeTo(kind, f2, order)
+					if pn == "skip" {
+						continue
+					}
+					w.Eval(1)
+					w.Fam("writer-kinds", 1)
+					desc := fmt.Sprintf("%s file with every member populated (variant %d), big=%v hdrcrc=%v, writer %s", t.Name, variant, c&2 != 0, c&1 == 0, kind)
+					rep := map[string]interface{}{"file_type": t.Type, "variant": variant, "writer": kind, "encoded_hex": vx.Hex(out)}
+					switch {
+					case pn != "":
+						w.Violation("writer-kind/"+kind, desc+": "+pn, rep)
+					case (err == nil) != (rerr == nil):
+						w.Violation("writer-kind/"+kind, fmt.Sprintf("%s: err=%v, through *bytes.Buffer err=%v", desc, err, rerr), rep)
+					case !bytes.Equal(out, ref.Bytes()):
+						w.Violation("writer-kind/"+kind, fmt.Sprintf("%s: %d bytes written, %d through *bytes.Buffer; first difference at %d", desc, len(out), ref.Len(), firstDiff(out, ref.Bytes())), rep)
+					case f1.Header != f2.Header || f1.CRC != f2.CRC:
+						w.Violation("writer-kind/"+kind, desc+": the File's header/CRC fields after Encode depend on the writer", rep)
+					}
+				}
+			}
+		}
+	}
+}
+
+func firstDiff(a, b []byte) int {
+	i := 0
+	for i < len(a) && i < len(b) && a[i] == b[i] {
+		i++
+	}
+	return i
 }
